@@ -11,7 +11,7 @@ from __future__ import annotations
 import ast
 
 from ..index import AnalysisError, call_name, norm, norm1
-from .common import enclosing, fctx, in_body, is_name, method_calls, pfind, pmatch, stmts
+from .common import Frag, const_of, enclosing, fctx, in_body, is_name, kwarg, method_calls, pfind, pmatch, stmts
 
 LEVEL = "other"
 EXPLANATION = (
@@ -28,57 +28,167 @@ def run(ctx) -> None:
     idx = ctx.index
     f = idx.function(UT, "grid_from_kpoints")
     cfg, du, pm = fctx(f)
+    kpp, gridp = f.params[0], f.params[1]
 
     r1 = ctx.rule("R23.1", "each mesh point selected exactly once; incomplete meshes rejected")
     r1.instance(f.short)
-    app = [c for c in method_calls(f.node, "append") if norm(c.func.value) == "selected_kpoints"]
+    loops = [s_ for s_ in stmts(f.node) if isinstance(s_, ast.For) and norm(s_.iter) == f"enumerate({kpp})" and isinstance(s_.target, ast.Tuple) and len(s_.target.elts) == 2]
+    if len(loops) != 1:
+        r1.expect(False, "selection loop located", f, f.node, f"grid_from_kpoints: `for i, k in enumerate({kpp})` not found")
+        return
+    lp = loops[0]
+    iv, kv = norm(lp.target.elts[0]), norm(lp.target.elts[1])
+    app = [c for c in method_calls(lp, "append") if c.args and norm(c.args[0]) == iv]
     if len(app) != 1:
-        raise AnalysisError("grid_from_kpoints: selected_kpoints.append not found")
+        r1.expect(False, "selection append located", f, lp, "grid_from_kpoints: the single `selected.append(i)` of the loop was not found")
+        return
     a = app[0]
+    sel = norm(a.func.value)
     g = enclosing(pm, a, ast.If)
-    seen = None
     ok = False
-    if g is not None and isinstance(g.test, ast.Compare) and isinstance(g.test.ops[0], ast.NotIn) and in_body(g.body, a):
+    seen = None
+    if g is not None and isinstance(g.test, ast.Compare) and len(g.test.ops) == 1 and \
+            ((isinstance(g.test.ops[0], ast.NotIn) and in_body(g.body, a)) or (isinstance(g.test.ops[0], ast.In) and in_body(g.orelse, a))):
         key, seen = norm(g.test.left), norm(g.test.comparators[0])
-        adds = [c for c in method_calls(g, "add") if norm(c.func.value) == seen and norm(c.args[0]) == key and in_body(g.body, c)]
+        arm = g.body if isinstance(g.test.ops[0], ast.NotIn) else g.orelse
+        adds = [c for c in method_calls(ast.Module(body=arm, type_ignores=[]), "add") if norm(c.func.value) == seen and c.args and norm(c.args[0]) == key]
         ok = bool(adds)
         kd = du.single_def(key, cfg.node(g)) if key.isidentifier() else None
-        okk = kd is not None and "np.round(k * npgrid)" in norm(kd.value) and "astype(int)" in norm(kd.value)
+        npg = None
+        okk = False
+        if kd is not None and kd.value is not None:
+            m_ = pmatch(kd.value, f"tuple(np.round({kv} * G).astype(int))", {"G"}) or pmatch(kd.value, f"tuple(np.rint({kv} * G).astype(int))", {"G"}) \
+                or pmatch(kd.value, f"tuple(np.round({kv} * G).astype(int) % G)", {"G"})
+            if m_ and m_[0][0] is kd.value:
+                npg = m_[0][1]["G"]
+                gd = du.resolve_local(ast.Name(id=npg, ctx=ast.Load()), kd.node) if npg.isidentifier() else None
+                okk = gd is not None and norm(gd) in (f"np.array({gridp})", f"np.asarray({gridp})", gridp)
         r1.check(okk, "the uniqueness key is the integer mesh coordinate round(k·grid)", f, kd.stmt if kd else g,
-                 f"uniqueness is tested on `{norm1(kd.value) if kd else key}`, not on the integer mesh coordinate of the k-point")
+                 f"uniqueness is tested on `{norm1(kd.value) if kd else key}`, not on the integer mesh coordinate round(k·grid) of the k-point")
+        sd = [d for ds in du.defs_at.values() for d in ds if d.name == seen]
+        r1.check(len(sd) == 1 and sd[0].value is not None and norm(sd[0].value) == "set()" and cfg.dominates(sd[0].node, cfg.node(lp)) and enclosing(pm, sd[0].stmt, ast.For) is None,
+                 "the seen-set starts empty, once, before the loop", f, sd[0].stmt if sd else g, f"`{seen}` is re-initialised / not an empty set before the selection loop")
     r1.check(ok, "test `kint not in seen`, seen.add(kint) and selected.append(i) form one guarded block", f, enclosing(pm, a, ast.stmt),
              "a k-point index is selected without the 'not seen before' test / without recording its mesh coordinate: a mesh point can be "
              "selected twice")
-    lp = enclosing(pm, a, ast.For)
-    r1.check(lp is not None and norm(lp.iter) == "enumerate(kpoints)" and norm(a.args[0]) == norm(lp.target.elts[0]),
-             "the selected value is the index of the k-point in the input order", f, lp or a, "the selected value is not the input index of the k-point")
-    og = [x for x in ast.walk(lp) if isinstance(x, ast.If) and "is_round(k * npgrid" in norm(x.test)] if lp is not None else []
-    r1.check(len(og) == 1 and in_body(og[0].body, a), "only points lying on the mesh are candidates", f, og[0] if og else (lp or a),
+    og = [x for x in ast.walk(lp) if isinstance(x, ast.If) and any(call_name(c) == "is_round" for c in ast.walk(x.test) if isinstance(c, ast.Call))]
+    okog = len(og) == 1 and in_body(og[0].body, a) and bool(pmatch(og[0].test, f"is_round({kv} * G, prec=ANY)", {"G"}) or pmatch(og[0].test, f"is_round({kv} * G)", {"G"}))
+    r1.check(okog, "only points lying on the mesh are candidates", f, og[0] if og else lp,
              "points that are not on the requested mesh can be selected")
-    rets = [s for s in stmts(f.node) if isinstance(s, ast.Return)]
-    lt = [s for s in stmts(f.node) if isinstance(s, ast.If) and norm(s.test).replace(" ", "") in ("num_selected<num_k_grid", "num_k_grid>num_selected") and isinstance(s.body[-1], ast.Raise)]
-    gt = [s for s in stmts(f.node) if isinstance(s, ast.If) and norm(s.test).replace(" ", "") in ("num_selected>num_k_grid", "num_k_grid<num_selected") and isinstance(s.body[-1], ast.Raise)]
-    r1.check(len(lt) == 1 and len(gt) == 1 and all(cfg.dominates(cfg.node(t), cfg.node(r)) for t in lt + gt for r in rets) and len(rets) == 2,
-             "both returns are dominated by the 'too few' and 'too many' tests", f, rets[0] if rets else f.node,
-             "a return of grid_from_kpoints is reachable without the cardinality tests: an incomplete (or over-complete) mesh is accepted")
-    t = norm(f.node).replace(" ", "")
-    r1.check("num_selected=len(selected_kpoints)" in t and "num_k_grid=np.prod(npgrid)" in t and "npgrid=np.array(grid)" in t,
-             "the tests compare |selected| with ∏ grid", f, f.node, "the cardinality tests no longer compare the number of selected points with the mesh size", stmt="cardinalities")
+    if okog:
+        pv = const_of(kwarg([c for c in ast.walk(og[0].test) if isinstance(c, ast.Call) and call_name(c) == "is_round"][0], "prec", 1), 1e-8)
+        r1.check(isinstance(pv, float) and 0 < pv < 0.5, f"on-mesh tolerance {pv} cannot merge neighbouring mesh points (< 1/2)", f, og[0],
+                 f"the on-mesh tolerance {pv} is so large that off-mesh points round onto mesh points")
+    rets = [s_ for s_ in stmts(f.node) if isinstance(s_, ast.Return)]
+
+    def card_test(s_):
+        """'<' / '>' if s_ is `if |selected| < ∏grid: raise` / `> …: raise`, else None."""
+        if not (isinstance(s_, ast.If) and isinstance(s_.test, ast.Compare) and len(s_.test.ops) == 1 and isinstance(s_.body[-1], ast.Raise)):
+            return None
+        at = cfg.node(s_)
+        l_, r_ = du.resolve_local(s_.test.left, at), du.resolve_local(s_.test.comparators[0], at)
+
+        def kind(e):
+            if norm(e) == f"len({sel})":
+                return "sel"
+            m2 = pmatch(e, "np.prod(G)", {"G"})
+            if m2 and m2[0][0] is e:
+                gsrc = du.resolve_local(ast.Name(id=m2[0][1]["G"], ctx=ast.Load()), at) if m2[0][1]["G"].isidentifier() else None
+                if gsrc is not None and norm(gsrc) in (f"np.array({gridp})", f"np.asarray({gridp})", gridp):
+                    return "mesh"
+            return None
+        kl, kr = kind(l_), kind(r_)
+        op = s_.test.ops[0]
+        if (kl, kr) == ("sel", "mesh"):
+            return "<" if isinstance(op, ast.Lt) else ">" if isinstance(op, ast.Gt) else "!=" if isinstance(op, ast.NotEq) else None
+        if (kl, kr) == ("mesh", "sel"):
+            return "<" if isinstance(op, ast.Gt) else ">" if isinstance(op, ast.Lt) else "!=" if isinstance(op, ast.NotEq) else None
+        return None
+    tests = {}
+    for s_ in stmts(f.node):
+        k_ = card_test(s_)
+        if k_:
+            tests.setdefault(k_, []).append(s_)
+    have_lt = tests.get("<", []) + tests.get("!=", [])
+    have_gt = tests.get(">", []) + tests.get("!=", [])
+    r1.check(bool(have_lt) and bool(have_gt) and bool(rets) and all(any(cfg.dominates(cfg.node(t_), cfg.node(r_)) for t_ in have_lt) and
+                                                                   any(cfg.dominates(cfg.node(t_), cfg.node(r_)) for t_ in have_gt) for r_ in rets),
+             "every return is dominated by `|selected| < ∏grid → raise` and `|selected| > ∏grid → raise`", f, rets[0] if rets else f.node,
+             "a return of grid_from_kpoints is reachable without comparing the number of SELECTED points with the mesh size ∏grid in both directions: an "
+             "incomplete (or over-complete) selection is accepted", stmt="cardinalities")
+    rv = [r_ for r_ in rets if r_.value is not None and sel in [norm(x) for x in ([r_.value] + (list(r_.value.elts) if isinstance(r_.value, ast.Tuple) else []))]]
+    r1.check(len(rv) >= 1 and all(r_ in rv or norm(r_.value) == gridp for r_ in rets),
+             "the selected indices are what is returned", f, rv[0] if rv else f.node, f"grid_from_kpoints does not return `{sel}`")
+    seld = [d for ds in du.defs_at.values() for d in ds if d.name == sel]
+    r1.check(len(seld) == 1 and norm(seld[0].value) in ("[]", "list()") and enclosing(pm, seld[0].stmt, ast.For) is None, "the selection starts empty, once", f,
+             seld[0].stmt if seld else f.node, f"`{sel}` is rebound / not empty before the loop")
 
     r2 = ctx.rule("R23.2", "detected mesh is verified against every point")
     gm = idx.function(UT, "get_mp_grid")
     r2.instance(gm.short)
-    tg = norm(gm.node).replace(" ", "")
-    r2.check("kmin=min(kfrac)" in tg and "mp_grid[i]=kmin.denominator" in tg and "assertkmin.numerator==1" in tg and "kfrac=[kforkinkfracifk!=0]" in tg,
-             "mesh size = denominator of the smallest non-zero coordinate (numerator 1 required)", gm, gm.node,
-             "get_mp_grid no longer derives the mesh from the smallest non-zero fractional coordinate", stmt="kmin")
-    asserts = [s for s in stmts(gm.node) if isinstance(s, ast.Assert) and "% 1" in norm(s.test)]
-    rt = [s for s in stmts(gm.node) if isinstance(s, ast.Return)]
-    gcfg = fctx(gm)[0]
-    r2.check(len(asserts) == 1 and all(gcfg.dominates(gcfg.node(asserts[0]), gcfg.node(r)) for r in rt) and "kpoints*mp_grid[None,:]" in tg,
-             "every k-point is asserted to lie on the detected mesh before it is returned", gm, asserts[0] if asserts else gm.node,
-             "the detected mesh is returned without verifying that all k-points lie on it")
-    r2.check("kpoints=np.round(np.array(kpoints),8)%1" in tg, "coordinates are reduced to [0,1) first", gm, gm.node, "coordinates are no longer reduced modulo 1", stmt="mod 1")
+    gcfg, gdu, gpm = fctx(gm)
+    kp2 = gm.params[0]
+    mins = [c for c in ast.walk(gm.node) if isinstance(c, ast.Call) and call_name(c) == "min" and len(c.args) == 1]
+    if len(mins) != 1:
+        r2.expect(False, "smallest coordinate located", gm, gm.node, "get_mp_grid: `min(<fractions>)` not found")
+        return
+    mn = mins[0]
+    at = gdu.node_of_expr(mn)
+    sl, _, defs = gdu.backward_slice(mn.args[0], at)
+    lim = [c for e in sl for c in ast.walk(e) if isinstance(c, ast.Call) and isinstance(c.func, ast.Attribute) and c.func.attr == "limit_denominator"]
+    r2.expect(len(lim) >= 1, "rational reconstruction located", gm, mn, "get_mp_grid: Fraction(k).limit_denominator(N) not found in the definition of the candidates")
+    nmax = const_of(lim[0].args[0] if lim and lim[0].args else None, 1000000) if lim else None
+    # every threshold comparison on the way from the coordinates to the candidates must only remove exact zeros
+    bad = []
+    nz = 0
+    for e in sl:
+        for c in ast.walk(e):
+            if isinstance(c, ast.Compare) and len(c.ops) == 1 and isinstance(c.comparators[0], ast.Constant) and isinstance(c.comparators[0].value, (int, float)) \
+                    and not isinstance(c.comparators[0].value, bool):
+                v = c.comparators[0].value
+                if v == 0 and isinstance(c.ops[0], (ast.NotEq, ast.Gt)):
+                    nz += 1
+                elif isinstance(nmax, int) and 0 < abs(v) < 1.0 / nmax and isinstance(c.ops[0], (ast.Gt, ast.GtE)):
+                    nz += 1
+                else:
+                    bad.append(c)
+    r2.check(not bad and nz >= 1, f"only exact zeros are excluded before the smallest coordinate 1/N (N ≤ {nmax}) is taken", gm, gpm and enclosing(gpm, (bad or [mn])[0], ast.stmt),
+             f"`{norm1(bad[0]) if bad else 'no zero filter'}`: coordinates are discarded by a threshold that is not below 1/{nmax} (the largest mesh the rational "
+             f"reconstruction supports): for meshes with 1/N under the threshold the smallest coordinate is lost and a coarser mesh is detected",
+             stmt="kmin")
+    kmn = gpm.get(mn)
+    kst = enclosing(gpm, mn, ast.stmt)
+    kname = kst.targets[0].id if isinstance(kst, ast.Assign) and isinstance(kst.targets[0], ast.Name) and kst.value is mn else None
+    lpi = enclosing(gpm, mn, ast.For)
+    if kname is None or lpi is None or not isinstance(lpi.target, ast.Name):
+        r2.expect(False, "kmin assignment inside the direction loop", gm, kst, "get_mp_grid: `kmin = min(…)` inside `for i in range(3)` not recognised")
+        return
+    ii = lpi.target.id
+    cols = [n for e in sl for n in ast.walk(e) if isinstance(n, ast.Subscript) and norm(n.value) == kp2]
+    src = [n for n in cols if pmatch(n, f"{kp2}[:, {ii}]") and pmatch(n, f"{kp2}[:, {ii}]")[0][0] is n]
+    src = src if len(src) == len(cols) else []
+    r2.check(bool(src) and norm(lpi.iter) == "range(3)", "direction i uses column i of the k-points, i = 0, 1, 2", gm, lpi,
+             f"the candidates of direction {ii} are not taken from column {ii} of the k-points for the three directions")
+    G = Frag(gm)
+    stq = [s_ for s_ in ast.walk(lpi) if isinstance(s_, ast.Assign) and pmatch(s_, f"MG[{ii}] = {kname}.denominator", {"MG"})]
+    asn = [s_ for s_ in ast.walk(lpi) if isinstance(s_, ast.Assert) and norm(s_.test) in (f"{kname}.numerator == 1", f"1 == {kname}.numerator")]
+    r2.check(len(stq) == 1 and len(asn) == 1, "mesh size = denominator of the smallest non-zero coordinate (numerator 1 required)", gm, kst,
+             "get_mp_grid no longer sets the mesh size to the denominator of the smallest non-zero coordinate after asserting its numerator is 1", stmt="denominator")
+    mgn = pmatch(stq[0], f"MG[{ii}] = {kname}.denominator", {"MG"})[0][1]["MG"] if stq else None
+    asserts = [s_ for s_ in gm.node.body if isinstance(s_, ast.Assert) and any(call_name(c) in ("np.allclose", "np.all") for c in ast.walk(s_.test) if isinstance(c, ast.Call))]
+    rt = [s_ for s_ in stmts(gm.node) if isinstance(s_, ast.Return)]
+    okv = False
+    if len(asserts) == 1 and mgn:
+        av = asserts[0]
+        sl2, _, _ = gdu.backward_slice(av.test, gcfg.node(av))
+        prod_ok = any(pmatch(e, f"{kp2} * {mgn}[None, :]") or pmatch(e, f"{kp2} * {mgn}") for e in sl2)
+        mod_ok = bool(pmatch(av.test, "np.allclose(np.round(X, ANY) % 1, 0)", {"X"}) or pmatch(av.test, "np.allclose(X, np.round(X))", {"X"}) or pmatch(av.test, "np.allclose(X % 1, 0)", {"X"}))
+        okv = prod_ok and mod_ok and all(gcfg.dominates(gcfg.node(av), gcfg.node(r_)) for r_ in rt) and bool(rt) and all(mgn in norm(r_.value) for r_ in rt)
+    r2.check(okv, "every k-point is asserted to lie on the detected mesh before the mesh is returned", gm, asserts[0] if asserts else gm.node,
+             "the detected mesh is returned without verifying that all k-points (k·mesh integer) lie on it")
+    red = gdu.reaching(kp2, gcfg.node(lpi))
+    okr = len(red) == 1 and red[0].value is not None and isinstance(red[0].value, ast.BinOp) and isinstance(red[0].value.op, ast.Mod) and const_of(red[0].value.right) == 1
+    r2.check(okr, "coordinates are reduced to [0,1) first", gm, red[0].stmt if red and red[0].stmt is not None else gm.node, "coordinates are no longer reduced modulo 1 before the mesh is detected", stmt="mod 1")
 
 
 from ..selftest import V  # noqa: E402
@@ -91,5 +201,22 @@ SELFTEST = [
       "fire", "R23.1"),
     V("early return of the grid before the tests", UT, "    num_selected = len(selected_kpoints)\n", "    if returngrid:\n        return grid\n    num_selected = len(selected_kpoints)\n", "fire", "R23.1"),
     V("mesh returned unverified", UT, "    assert np.allclose(np.round(k1, 6) % 1, 0), (\n        f\"some kpoints are not on the Monkhorst-Pack grid {mp_grid}:\\n {k1}\")\n", "", "fire", "R23.2"),
-    V("neutral: renamed seen-set", UT, "kpoints_unique", "seen_kpoints", "skip"),
+    V("seeded C23-m1: repeated points appended, test counts the seen-set", UT,
+      "            if kint not in kpoints_unique:\n                kpoints_unique.add(kint)\n                selected_kpoints.append(i)\n            else:\n                warnings.warn(f\"k-point {k} is repeated\")\n\n    num_selected = len(selected_kpoints)",
+      "            if kint in kpoints_unique:\n                warnings.warn(f\"k-point {k} is repeated\")\n            kpoints_unique.add(kint)\n            selected_kpoints.append(i)\n\n    num_selected = len(kpoints_unique)", "fire", "R23.1"),
+    V("cardinality test counts the seen-set only", UT, "    num_selected = len(selected_kpoints)", "    num_selected = len(kpoints_unique)", "fire", "R23.1"),
+    V("seeded C23-m2: float threshold 1e-2 drops the coordinate 1/100", UT,
+      "        kfrac = [Fraction(k).limit_denominator(100) for k in kpoints[:, i]]\n        kfrac = [k for k in kfrac if k != 0]",
+      "        knonzero = kpoints[:, i][kpoints[:, i] > 1e-2]\n        kfrac = [Fraction(k).limit_denominator(100) for k in knonzero]", "fire", "R23.2"),
+    V("mesh size taken from the numerator", UT, "mp_grid[i] = kmin.denominator", "mp_grid[i] = kmin.numerator", "fire", "R23.2"),
+    V("always column 0", UT, "for k in kpoints[:, i]]", "for k in kpoints[:, 0]]", "fire", "R23.2"),
+    V("neutral: renamed seen-set", UT, "kpoints_unique", "seen_kpoints", "silent", replace_all=True),
+    V("neutral: renamed selection list", UT, "selected_kpoints", "chosen", "silent", replace_all=True),
+    V("neutral: renamed kfrac/kmin", UT, "kmin", "k_least", "silent", replace_all=True),
+    V("neutral: float pre-filter below 1/100", UT,
+      "        kfrac = [Fraction(k).limit_denominator(100) for k in kpoints[:, i]]\n        kfrac = [k for k in kfrac if k != 0]",
+      "        kfrac = [Fraction(k).limit_denominator(100) for k in kpoints[:, i] if k > 1e-3]\n        kfrac = [k for k in kfrac if k != 0]", "silent"),
+    V("neutral: membership test inverted with else", UT,
+      "            if kint not in kpoints_unique:\n                kpoints_unique.add(kint)\n                selected_kpoints.append(i)\n            else:\n                warnings.warn(f\"k-point {k} is repeated\")",
+      "            if kint in kpoints_unique:\n                warnings.warn(f\"k-point {k} is repeated\")\n            else:\n                kpoints_unique.add(kint)\n                selected_kpoints.append(i)", "silent"),
 ]
